@@ -17,7 +17,7 @@ RULE = (
     "six cells (2x3 or 3x2 grid, index column included) each independently one of {NULL spelled as in the header, "
     "NULL spelled differently, NULL +/- a small printable difference, ordinary}: all 4^6 placements; NULL value in "
     "{-999.25, 0, 1e30, -9999, 999, -0.5, -99999.25, 2147483647} with 3 header spellings; engine {numpy, normal}; null_policy {strict, none}; "
-    "WRAP {NO, YES}; optional text column; declared curves = all / one fewer than the data columns / none; use_normal_engine_for_wrapped on/off; every read result is also written with defaults and re-read, then edited in place (every non-index cell toggled between NaN and a value), written and re-read again; quick = full "
+    "WRAP {NO, YES}; optional text column; declared curves = all / one fewer than the data columns / none; use_normal_engine_for_wrapped on/off; every read result is also written with defaults and re-read, then written with flagged / per-column numeric formats and re-read with null_policy='none' (NaN cells must hold the NULL value), then edited in place (every non-index cell toggled between NaN and a value), written and re-read again; a literal NaN token in the file next to NULL-equal samples; reads with mnemonic_case lower / preserve; quick = full "
     "product placement x 3 NULL values x policy x engine plus each secondary axis one at a time against all "
     "placements, thorough = full product of all axes; non-trivial = at least one cell is NULL-equal or near-NULL"
 )
@@ -151,6 +151,8 @@ def build(pt):
 
 
 def check_point(pt):
+    from ..core import inputs as _inputs
+    _inputs.process_prelude()   # explored in a process that has already read many other files (see core/inputs.py)
     nv, hs, shape, wrap, text, pol, eng, pl = pt[:8]
     keep_numpy = pt[9] if len(pt) > 9 else False
     textfile, toks, kinds, nullv, r, c = build(pt)
